@@ -13,7 +13,8 @@ import (
 //	02                                           NEW   fresh receiver (garbage fill, then initialize)
 //	03 slot:u32                                  SAVE  copy the receiver into a slot
 //	04 slot:u32                                  LOAD  copy a slot into the receiver
-//	05 method:u8 emit:u8 args                    CALL  public call; fold its trace record; emit the 64-bit digest
+//	05 method:u8 flags:u8 args                   CALL  public call; fold its trace record; flags bit 0: emit the 64-bit digest,
+//	                                             bit 1: do not compare the readers' ri (see Enumerate: partial multi-byte read)
 //	06 plan                                      PLAN  run a coroutine plan (see Plan below); emits a 32-byte result
 //	07                                           ENDPROG
 //	FF                                           END
@@ -40,16 +41,21 @@ func (s *Script) New()          { s.u8(0x02) }
 func (s *Script) Save(slot int) { s.u8(0x03); s.u32(slot) }
 func (s *Script) Load(slot int) { s.u8(0x04); s.u32(slot) }
 
-func (s *Script) Call(method int, emit bool, args []interp.Value) {
+func (s *Script) Call(method int, emit bool, args []interp.Value) (flagsAt int) {
 	s.u8(0x05)
 	s.u8(method)
+	flagsAt = len(s.B)
 	if emit {
 		s.u8(1)
 	} else {
 		s.u8(0)
 	}
 	s.Args(args)
+	return flagsAt
 }
+
+// MaskRI sets the "readers' ri not compared" flag of a CALL record.
+func (s *Script) MaskRI(flagsAt int) { s.B[flagsAt] |= 2 }
 
 // Args encodes materialised argument values as they are before the call.
 func (s *Script) Args(args []interp.Value) {
